@@ -77,6 +77,7 @@ def check_dateinterval(ctx, case):
     if (A != B) != (ssa != ssb): V("ne", A != B, ssa != ssb)
     if A == B and hash(A) != hash(B): V("hash")
     if A.start != D(a) or A.end != D(a + la) or A.calendar is not cal: V("bounds")
+    if la <= 40 and [gen.day_of(x) for x in iter(A)] != list(sa): V("iter-protocol")
 
 
 def check_dateinterval_ctor(ctx, case):
@@ -163,6 +164,9 @@ def check_interval(ctx, case):
     except (RuntimeError, OverflowError, ValueError) as e:
         ctx.exc(e)
         if a is not None and b is not None and gen.DUR_MIN_NS <= b - a <= gen.DUR_MAX_NS: V("duration-raises", repr(e))
+    dec = list(iv)
+    if len(dec) != 2 or (dec[0] is None) != (a is None) or (dec[1] is None) != (b is None) or (a is not None and gen.inst_ns(dec[0]) != a) or (b is not None and gen.inst_ns(dec[1]) != b):
+        V("deconstruct", [repr(x) for x in dec], (a, b))
     # equality against a second interval
     sc = -INF if c is None else c; sd = INF if d is None else d
     if sd >= sc:
